@@ -145,7 +145,8 @@ def _cm(t, st):
 
 def run(ctx):
     t_start = time.time()
-    ok, why = ctx.proof_stage("Props.C01", ["eval_correct", "check_answer_alarm_sound", "placeholder_generic", "unique_sound_exact", "f14_refuted", "f14b_refuted", "f1_refuted", "f7q_refuted"])
+    ok, why = ctx.proof_stage("Props.C01", ["eval_correct", "check_answer_alarm_sound", "placeholder_generic", "unique_sound_exact", "f14_refuted", "f14b_refuted", "f1_refuted", "f7q_refuted",
+                                           "eval_goal_fuel_sufficient", "check_answer_ok_sound", "check_answer_closed_ok_sound", "known_classes_narrow"])
     if not ok:
         ctx.violation({"kind": "proof", "broken": why}, no_input=True)
         return
